@@ -13,10 +13,6 @@ type commandSequence struct {
 func (c commandSequence) handle(ctx *updateContext) (UpdateResult, *regattapb.CommandResult, error) {
 	res := &regattapb.CommandResult{Revision: ctx.index}
 	for _, cmd := range c.Sequence {
-		// The head of a sequence may repeat commands an earlier (indeterminate) proposal has applied.
-		if c.LeaderIndex != nil && cmd.LeaderIndex != nil && *cmd.LeaderIndex <= ctx.replicatedUpTo {
-			continue
-		}
 		_, cmdRes, err := wrapCommand(cmd).handle(ctx)
 		if err != nil {
 			return ResultFailure, nil, err
